@@ -77,7 +77,8 @@ async fn recognize(stream: &mut TcpStream) -> Result<Proxy, anyhow::Error> {
 }
 
 fn recognize_http(method: &str, mut path: &str) -> Result<Proxy, anyhow::Error> {
-    if let Some(i) = path.rfind('?') {
+    // the query starts at the first '?' (it may itself contain '?', ':', '/')
+    if let Some(i) = path.find('?') {
         path = &path[..i];
     }
     if path.ends_with('/') {
